@@ -6,26 +6,33 @@
    the Go heap and stack, and about every kustomize function on the build path. What is proved here:
      (1) totality of the modelled kyaml core (PathGetter = walk, fieldspec filter = fs_filter/fs_apply/
          fsslice_apply and the setters used with it) for ALL documents, paths and continuations,
-         with the single Panic case of walk characterised exactly;
+         (walk panics exactly when its continuation does);
      (2) the generated table of explicit panic / fatal / exit / unchecked-assertion sites of the
          packages reachable from api/krusty is covered by the hand-maintained justification list.
-   The full statement is REFUTED on the pinned tree (C12_refuted_last_on_empty in the model; twenty
-   classes of failing inputs on the implementation, findings.d/C12.txt); everything else is the
-   business of the mutation search (harness/c12*.go). *)
+   The full statement is still false on the implementation (classes of failing inputs listed in
+   findings.d/C12.txt; repaired ones are recorded there as `fixed:` and their witnesses are kept as
+   regression inputs); everything else is the business of the mutation search (harness/c12*.go). *)
 From KV Require Import Yaml.Fns Yaml.FieldSpec Yaml.TotalityProofs.
 From KV Require Import Glob.PanicSiteTypes Glob.PanicAllow Glob.PanicAllowProofs Gen.PanicSites Gen.C12Findings.
 
 (* ---- (1) totality of the kyaml core ------------------------------------------------------- *)
 
-(* walk (PathGetter followed by any continuation k) returns Panic EXACTLY when the traversal applies
-   a "-" part to an empty sequence or a null node ([reach ... = RLastEmpty]), or when it reaches a
-   node on which k itself panics. No size bound, any document, any path, creation on or off. *)
+(* walk (PathGetter followed by any continuation k) has no panic of its own: it returns Panic
+   EXACTLY when it reaches a node on which k itself panics ([reach] is the continuation-independent
+   trace of the traversal). No size bound, any document, any path, creation on or off.
+   (Before fix 5cf7cc6 of ElementIndexer there was one more case, "-" on an empty list or null node:
+   defect F7c, then exhibited as C12_refuted_last_on_empty.) *)
 Theorem C12_total_core_walk_panic_iff :
   forall (A : Type) (k : node -> res (node * A)) (cr : option kind) (ps : list part) (n : node),
-    walk cr ps k n = Panic <->
-    (reach cr ps n = RLastEmpty \/ exists x, reach cr ps n = RAt x /\ k x = Panic).
+    walk cr ps k n = Panic <-> exists x, reach cr ps n = RAt x /\ k x = Panic.
 Proof. exact (fun A k cr ps n => walk_panic_iff k cr ps n). Qed.
 Print Assumptions C12_total_core_walk_panic_iff.
+
+Theorem C12_total_core_walk_no_panic :
+  forall (A : Type) (k : node -> res (node * A)) (cr : option kind) (ps : list part) (n : node),
+    (forall x, k x <> Panic) -> walk cr ps k n <> Panic.
+Proof. exact (fun A k cr ps n => walk_never_panics k cr ps n). Qed.
+Print Assumptions C12_total_core_walk_no_panic.
 
 (* walk has no loop of its own: it returns Diverge only by handing on a Diverge of k *)
 Theorem C12_total_core_walk_no_diverge :
@@ -34,38 +41,30 @@ Theorem C12_total_core_walk_no_diverge :
 Proof. exact (fun A k cr ps n => walk_never_diverges k cr ps n). Qed.
 Print Assumptions C12_total_core_walk_no_diverge.
 
-(* yaml.Lookup(path...) panics exactly when some "-" of the path is applied to a node - reached by
-   the parts before it - that is an empty sequence or null *)
-Theorem C12_total_core_lookup_panic_iff :
-  forall (ps : list part) (n : node),
-    lookup ps n = Panic <->
-    exists pre post x, ps = (pre ++ PLast :: post)%list /\ lookup pre n = Ok (Some x) /\ empty_or_null x.
-Proof. exact lookup_panic_spec. Qed.
-Print Assumptions C12_total_core_lookup_panic_iff.
+(* yaml.Lookup(path...) and yaml.LookupCreate(kind, path...) never panic and never diverge *)
+Theorem C12_total_core_lookup_no_panic :
+  forall (ps : list part) (n : node), lookup ps n <> Panic.
+Proof. exact lookup_never_panics. Qed.
+Print Assumptions C12_total_core_lookup_no_panic.
 
 Theorem C12_total_core_lookup_no_diverge :
   forall (ps : list part) (n : node), lookup ps n <> Diverge.
 Proof. exact lookup_never_diverges. Qed.
 Print Assumptions C12_total_core_lookup_no_diverge.
 
-(* LookupCreate: same characterisation through [reach] (created nodes are never "-"-able) *)
-Theorem C12_total_core_lookup_create_panic_iff :
-  forall (leaf : kind) (ps : list part) (n : node),
-    lookup_create leaf ps n = Panic <-> reach (Some leaf) ps n = RLastEmpty.
-Proof. exact lookup_create_panic_iff. Qed.
-Print Assumptions C12_total_core_lookup_create_panic_iff.
+Theorem C12_total_core_lookup_create_no_panic :
+  forall (leaf : kind) (ps : list part) (n : node), lookup_create leaf ps n <> Panic.
+Proof. exact lookup_create_never_panics. Qed.
+Print Assumptions C12_total_core_lookup_create_no_panic.
 
-(* a path without a "-" part can never panic *)
-Theorem C12_total_core_walk_no_last_no_panic :
-  forall (A : Type) (k : node -> res (node * A)) (cr : option kind) (ps : list part) (n : node),
-    no_last ps = true -> (forall x, k x <> Panic) -> walk cr ps k n <> Panic.
-Proof. exact (fun A k cr ps n => walk_no_last_no_panic k cr ps n). Qed.
-Print Assumptions C12_total_core_walk_no_last_no_panic.
+Theorem C12_total_core_lookup_create_no_diverge :
+  forall (leaf : kind) (ps : list part) (n : node), lookup_create leaf ps n <> Diverge.
+Proof. exact lookup_create_never_diverges. Qed.
+Print Assumptions C12_total_core_lookup_create_no_diverge.
 
 (* the field-spec filter (fieldspec.Filter.filter / handleMap / handleSequence) never panics and
    never diverges, for every document, field-spec path, create flag and create kind, provided the
-   SetValue callback does not: walk's "-" case cannot arise because handleMap applies one path part
-   to a mapping node *)
+   SetValue callback does not *)
 Theorem C12_total_core_fs_filter_no_panic :
   forall (ck : option kind) (ct : tag) (sv : node -> res node),
     (forall n, sv n <> Panic) ->
@@ -113,7 +112,7 @@ Print Assumptions C12_total_core_setters.
      forall b, read b  <> Panic /\ read b  <> Diverge        (b: any byte stream; read = the YAML readers)
    What is missing: a model of the build pipeline and of go-yaml. What does hold, with no hypothesis
    left: the field-spec filter with kustomize's own setters, over any field-spec list, document and
-   path, and Lookup / LookupCreate on any path without a "-" part, neither panic nor diverge. *)
+   path, and Lookup / LookupCreate on any path, neither panic nor diverge. *)
 Theorem C12_no_panic_partial :
   (forall nonstr ck ct name v keep create path obj,
       let r := fs_filter ck ct (set_field nonstr name v keep) create path obj in r <> Panic /\ r <> Diverge) /\
@@ -121,20 +120,10 @@ Theorem C12_no_panic_partial :
       let r := fs_filter ck ct (set_scalar v) create path obj in r <> Panic /\ r <> Diverge) /\
   (forall nonstr ck ct name v keep l obj,
       let r := fsslice_apply ck ct (set_field nonstr name v keep) l obj in r <> Panic /\ r <> Diverge) /\
-  (forall ps n, lookup ps n <> Diverge /\ (no_last ps = true -> lookup ps n <> Panic)) /\
-  (forall leaf ps n, lookup_create leaf ps n <> Diverge /\ (no_last ps = true -> lookup_create leaf ps n <> Panic)).
+  (forall ps n, lookup ps n <> Panic /\ lookup ps n <> Diverge) /\
+  (forall leaf ps n, lookup_create leaf ps n <> Panic /\ lookup_create leaf ps n <> Diverge).
 Proof. exact core_total_summary. Qed.
 Print Assumptions C12_no_panic_partial.
-
-(* ---- the full statement is false for the model (and for the code): F7c ------------------------ *)
-
-(* FULL STATEMENT (not provable):  forall ps n, lookup ps n <> Panic.
-   Witness: yaml.Lookup("a", "-") on `a: []`; replayed on the implementation by
-   corpus/C12/f7c-lookup-last-on-empty-list.json, class panic:kyaml/yaml.ElementIndexer.Filter:index-neg *)
-Theorem C12_refuted_last_on_empty :
-  exists n, lookup (parse_path ["a"; "-"]) n = Panic.
-Proof. exact last_on_empty_witness. Qed.
-Print Assumptions C12_refuted_last_on_empty.
 
 (* ---- (2) explicit panic / fatal / exit / unchecked-assertion sites ---------------------------- *)
 
@@ -162,7 +151,7 @@ Print Assumptions Gen_panic_allow_stale_now.
 
 (* the generated table really contains the sites the property text names *)
 Theorem Gen_panic_sites_nonvacuous :
-  existsb (site_eqb site_rolebinding_assert) gen_panic_sites = true /\
+  existsb (site_eqb site_csv_annotation_panic) gen_panic_sites = true /\
   existsb (site_eqb site_previds_panic) gen_panic_sites = true /\
   20 <= List.length gen_panic_sites /\ 40 <= List.length gen_panic_pkgs.
 Proof. exact panic_sites_nonempty. Qed.
